@@ -13,11 +13,13 @@ import (
 // C16 - calls return, back-pressure is bounded, Close is final (engine G2).
 
 type callRec struct {
-	name     string
-	started  int // logical event number at call start (0 = not started)
-	returned int // logical event number at return (0 = not returned)
-	err      error
-	val      string
+	tid            int
+	blockedAtClose bool // the call was parked on back-pressure when Close was called
+	name           string
+	started        int // logical event number at call start (0 = not started)
+	returned       int // logical event number at return (0 = not returned)
+	err            error
+	val            string
 }
 
 type c16State struct {
@@ -30,7 +32,7 @@ type c16State struct {
 
 func (st *c16State) call(name string, f func() (string, error)) {
 	st.ev++
-	r := &callRec{name: name, started: st.ev}
+	r := &callRec{name: name, started: st.ev, tid: vs.CurrentID()}
 	st.calls = append(st.calls, r)
 	v, err := f()
 	st.ev++
@@ -86,11 +88,19 @@ func (st *c16State) final(deadlock string) []Violation {
 		out = append(out, Violation{Sig: "threads-left-behind|background|any", Msg: "all driver calls returned but background threads never finished: " + deadlock})
 		return out
 	}
+	if st.closed > 0 && st.w.coll != nil {
+		if n := moss.VerifTopLen(st.w.coll); n > 0 {
+			out = append(out, Violation{Sig: "batch-accepted-by-closed-collection|top|any", Msg: fmt.Sprintf("after Close has returned and every thread has finished the collection still holds %d accepted but unmerged batches: a batch was accepted after the collection was closed; calls: %s", n, st.outcome())})
+		}
+	}
 	for _, c := range st.calls {
 		kind := strings.SplitN(c.name, "#", 2)[0]
 		afterClose := st.closed > 0 && c.started > st.closed
 		switch kind {
 		case "ExecuteBatch":
+			if c.blockedAtClose && c.err != moss.ErrClosed {
+				out = append(out, Violation{Sig: "blocked-writer-not-released-with-errclosed|ExecuteBatch|any", Msg: fmt.Sprintf("%s was still parked on back-pressure when Close returned and came back with %s instead of ErrClosed", c.name, errName(c.err))})
+			}
 			if c.err != nil && c.err != moss.ErrClosed {
 				out = append(out, Violation{Sig: "unexpected-error|ExecuteBatch|any", Msg: c.name + " returned " + c.err.Error()})
 			}
@@ -140,6 +150,20 @@ func c16World(cfg Config) (*World, *c16State) {
 	return w, st
 }
 
+// closeColl is the body of every closer thread: it closes the collection and notes which driver calls are
+// still parked on the back-pressure condition at the moment Close returns (they have been woken by Close and
+// must come back with ErrClosed).
+func (st *c16State) closeColl() {
+	st.call("Close#1", func() (string, error) { return "", st.w.coll.Close() })
+	st.closed = st.ev
+	st.w.closedColl = true
+	for _, c := range st.calls {
+		if c.returned == 0 && c.tid >= 0 && c.tid < st.w.s.NumThreads() && st.w.s.Thread(c.tid).PendingKind() == vs.KCondWait {
+			c.blockedAtClose = true
+		}
+	}
+}
+
 func (st *c16State) spawn(name string, f func()) {
 	t := st.w.s.Spawn(name, f)
 	st.w.mains[t.ID] = true
@@ -165,9 +189,7 @@ func init() {
 						})
 					}
 					st.spawn("closer", func() {
-						st.call("Close#1", func() (string, error) { return "", w.coll.Close() })
-						st.closed = st.ev
-						w.closedColl = true
+						st.closeColl()
 					})
 					return w, st.invariant, st.final
 				}},
@@ -195,9 +217,7 @@ func init() {
 						}
 					})
 					st.spawn("closer", func() {
-						st.call("Close#1", func() (string, error) { return "", w.coll.Close() })
-						st.closed = st.ev
-						w.closedColl = true
+						st.closeColl()
 					})
 					return w, st.invariant, st.final
 				}},
@@ -215,9 +235,7 @@ func init() {
 						st.call("ExecuteBatch#w.1", func() (string, error) { return setBatch(w.coll, "k", "1") })
 					})
 					st.spawn("closer", func() {
-						st.call("Close#1", func() (string, error) { return "", w.coll.Close() })
-						st.closed = st.ev
-						w.closedColl = true
+						st.closeColl()
 					})
 					return w, st.invariant, st.final
 				}},
@@ -239,9 +257,23 @@ func init() {
 						}
 					})
 					st.spawn("closer", func() {
-						st.call("Close#1", func() (string, error) { return "", w.coll.Close() })
-						st.closed = st.ev
-						w.closedColl = true
+						st.closeColl()
+					})
+					return w, st.invariant, st.final
+				}},
+			{Name: "f: ReadOnly store collection (no merger): writer x 2 batches with MaxPreMergerBatches=1, Close from a second thread",
+				Build: func() (*World, func() *Violation, func(string) []Violation) {
+					w, st := c16World(Config{Backing: "store", MinMergePct: 100, MaxPre: 1, ReadOnly: true})
+					if w.infra != "" {
+						return w, nil, st.final
+					}
+					st.spawn("writer", func() {
+						for j := 1; j <= 2; j++ {
+							st.call(fmt.Sprintf("ExecuteBatch#w.%d", j), func() (string, error) { return setBatch(w.coll, "k", fmt.Sprint(j)) })
+						}
+					})
+					st.spawn("closer", func() {
+						st.closeColl()
 					})
 					return w, st.invariant, st.final
 				}},
